@@ -28,6 +28,10 @@ package main
 //@   requires r != nil && r.URL != nil && s != nil && s.Upload != nil && s.Merge != nil
 //@   at call Parse#1: ghost $encoded = 0
 //@   at call Encode#1: after ghost $encoded = ite(result == nil, $encoded+1, $encoded)
+// Every stored object is decoded into a zero report: json decoding into a value
+// that already holds data keeps what the input does not mention (map entries,
+// slice elements), so a reused variable would carry one report's data into the next.
+//@   at call Decode#1: assert report.Programs == nil && report.Week == "" && report.LastWeek == "" && report.Config == "" && report.X == 0
 //@   loop 1: invariant $encoded == count && s != nil && s.Upload != nil && s.Merge != nil && it != nil && mergeWriter != nil && encoder != nil
 //@   at call Text#1: assert $encoded == count
 //@   at call Text#1: assert arg2 == 200
